@@ -8,25 +8,26 @@ import (
 // World generators and profiles of the INTEG engine.
 
 type IntegGen struct {
-	MaxTasks    int
-	MaxCmd      int
-	MaxVar      int
-	MaxHook     int
-	CondProb    int // per task, out of 100
-	AllowProb   int
-	FailProb    int // per exec, out of 100
-	NotFoundPct int
-	HookFailPct int
-	OutputProb  int // per cmd exec: has output
-	BigOutput   bool
-	StderrProb  int
-	ChainProb   int    // task uses {{.Output}} chaining
-	PipelinePct int    // world is a pipeline (else direct drivers)
-	DurMax      int    // ms
-	Names       string // "simple" | "ascii"
-	ExportPct   int
-	HookOutput  bool // before/after hooks print something too (it is not part of the captured output)
-	StageGen    SchedGenParams
+	MaxTasks       int
+	MaxCmd         int
+	MaxVar         int
+	MaxHook        int
+	CondProb       int // per task, out of 100
+	AllowProb      int
+	FailProb       int // per exec, out of 100
+	NotFoundPct    int
+	HookFailPct    int
+	OutputProb     int // per cmd exec: has output
+	BigOutput      bool
+	StderrProb     int
+	ChainProb      int    // task uses {{.Output}} chaining
+	PipelinePct    int    // world is a pipeline (else direct drivers)
+	DurMax         int    // ms
+	Names          string // "simple" | "ascii"
+	ExportPct      int
+	InteractivePct int  // per task: declared interactive
+	HookOutput     bool // before/after hooks print something too (it is not part of the captured output)
+	StageGen       SchedGenParams
 }
 
 var exitCodes = []int{1, 2, 3, 7, 42, 100, 125, 126, 127, 128, 129, 130, 137, 143, 200, 254, 255}
@@ -226,6 +227,9 @@ func GenTaskWorld(ch *Choices, p IntegGen) *IntegWorld {
 		}
 		t.Cond = ch.Bool(p.CondProb, 100, "task-cond")
 		t.Allow = ch.Bool(p.AllowProb, 100, "task-allow")
+		if p.InteractivePct > 0 && ch.Bool(p.InteractivePct, 100, "interactive") {
+			t.Interactive = true // its output goes to the terminal unfiltered - and is still captured
+		}
 		if ch.Bool(p.ExportPct, 100, "export-as") {
 			t.ExportAs = fmt.Sprintf("EXP_%s_%d", strings.ToUpper(genWord(ch, 5)), len(w.Tasks)) // unique per task
 		}
@@ -357,6 +361,7 @@ func runIntegJob(c *Ctl, job *Job, idx int, res *RunResult) {
 		gen.ExportPct = 25
 		gen.Names = "ascii"
 		gen.HookOutput = true
+		gen.InteractivePct = 12
 		gen.StageGen.CondProb = 8
 		w = GenTaskWorld(c.Ch, gen)
 		// the captured output must not depend on the output format chosen for the terminal
